@@ -166,6 +166,8 @@ func (e *Env) unaryHandler(i int, ctx context.Context, dec func(interface{}) err
 		e.rec.ev(tn, "return", rr.HandlerRet)
 		atomic.AddInt32(&e.hDone, 1)
 	}()
+	var joined chan struct{}
+	var mjoin *mc.Chan[struct{}]
 	for _, op := range e.sc.RPCs[i].Handler {
 		switch {
 		case op == "dec":
@@ -176,15 +178,33 @@ func (e *Env) unaryHandler(i int, ctx context.Context, dec func(interface{}) err
 				rr.SrvRecv = append(rr.SrvRecv, string(m.Payload))
 			}
 			e.rec.ev(tn, op, es(err))
-		case strings.HasPrefix(op, "h:"):
-			err := grpc.SetHeader(ctx, hdrMD(op[2:]))
-			rr.SrvHdrRes = append(rr.SrvHdrRes, op+"="+es(err))
-		case strings.HasPrefix(op, "H:"):
-			err := grpc.SendHeader(ctx, hdrMD(op[2:]))
-			rr.SrvHdrRes = append(rr.SrvHdrRes, op+"="+es(err))
-		case strings.HasPrefix(op, "t:"):
-			err := grpc.SetTrailer(ctx, hdrMD(op[2:]))
-			rr.SrvHdrRes = append(rr.SrvHdrRes, op+"="+es(err))
+		case strings.HasPrefix(op, "h:") || strings.HasPrefix(op, "H:") || strings.HasPrefix(op, "t:"):
+			e.unaryMetaOp(ctx, rr, op)
+		case op == "go":
+			// a second goroutine of the handler (a fan-out worker) that sets metadata on the same call
+			ops2 := e.sc.RPCs[i].Handler2
+			body := func() {
+				for _, o := range ops2 {
+					e.unaryMetaOp(ctx, rr, o)
+				}
+			}
+			if e.native {
+				ch := make(chan struct{})
+				joined = ch
+				go func() { defer close(ch); body() }()
+			} else {
+				ch := mc.NewChan[struct{}]()
+				mjoin = ch
+				mc.GoNamed(tn+"b", func() { body(); mc.Close(ch) })
+			}
+		case op == "join":
+			e.where("handler:join")
+			if e.native {
+				<-joined
+			} else {
+				mc.Recv(mjoin)
+			}
+			e.where("")
 		case op == "w":
 			e.where("handler:waitctx")
 			waitDone(ctx, e.native)
@@ -209,6 +229,24 @@ func (e *Env) unaryHandler(i int, ctx context.Context, dec func(interface{}) err
 	}
 	rr.SrvSendAttempt = append(rr.SrvSendAttempt, tag(i, "s", 0))
 	return newMsg(i, "s", 0), nil
+}
+
+// unaryMetaOp is grpc.SetHeader / SendHeader / SetTrailer on a unary handler's context.
+func (e *Env) unaryMetaOp(ctx context.Context, rr *RPCRec, op string) {
+	var err error
+	switch op[:2] {
+	case "h:":
+		err = grpc.SetHeader(ctx, hdrMD(op[2:]))
+	case "H:":
+		err = grpc.SendHeader(ctx, hdrMD(op[2:]))
+	case "t:":
+		err = grpc.SetTrailer(ctx, hdrMD(op[2:]))
+	default:
+		panic("bad unary metadata op " + op)
+	}
+	e.nlock()
+	rr.SrvHdrRes = append(rr.SrvHdrRes, op+"="+es(err))
+	e.nunlock()
 }
 
 func (e *Env) streamHandler(i int, stream grpc.ServerStream) (err error) {
@@ -268,13 +306,17 @@ func (e *Env) handlerOps(i int, tn string, stream grpc.ServerStream, ops []strin
 			e.rec.ev(tn, op, es(err))
 		case strings.HasPrefix(op, "h:"):
 			err := stream.SetHeader(hdrMD(op[2:]))
+			e.nlock()
 			rr.SrvHdrRes = append(rr.SrvHdrRes, op+"="+es(err))
+			e.nunlock()
 			e.rec.ev(tn, op, es(err))
 		case strings.HasPrefix(op, "H:"):
 			e.where("handler:SendHeader")
 			err := stream.SendHeader(hdrMD(op[2:]))
 			e.where("")
+			e.nlock()
 			rr.SrvHdrRes = append(rr.SrvHdrRes, op+"="+es(err))
+			e.nunlock()
 			e.rec.ev(tn, op, es(err))
 		case strings.HasPrefix(op, "t:"):
 			stream.SetTrailer(hdrMD(op[2:]))
